@@ -143,6 +143,11 @@ func (w *worldC) Generate(r *simrt.Rand, profile, tier string) any {
 				if profile == "enum" {
 					sz = 1 + r.Intn(40)
 				}
+				if profile == "disk" && g == 0 && i == 0 && r.Intn(400) == 0 {
+					// once in a while a chunk as large as the shipped outputs make them (7 MiB of records plus the envelope)
+					sz = 7*1024*1024 + 1 + r.Intn(200)
+					s.MaxBufBytes = 1 << 30
+				}
 			}
 			d := 0
 			if r.Bool(40) {
